@@ -1,19 +1,84 @@
 """C01 — frames that arrive together stay together: no mixed or partial frame sets."""
-from .. import protocol, pipeline
+import logging
+from ..core import Violation
+from .. import protocol, pipeline, netfeed
 
 ID = 'C01'
-MODULES = ['OFModel.Zmq.Receiver', 'OFModel.Gen.Facts']
-PROP_FILES = ['C01', 'C03JoinMulti']     # per-source completeness ('exactly the subscribed topics published under that id, never a subset') is C03_join_complete_multi
-RULE = ('adversarial wire feeds of a real ZMQReceiver: 1-3 sources x {sync, ?, ??} x {all topics, explicit+remap, *} x {well-formed increasing ids with '
+MODULES = ['OFModel.Zmq.Receiver', 'OFModel.Zmq.Sender', 'OFModel.FilterLoop', 'OFModel.Zmq.Net', 'OFModel.Gen.Facts']
+PROP_FILES = ['C01', 'C03JoinMulti', 'NetRecv', 'NetSend', 'C01Net']     # per-source completeness ('exactly the subscribed topics published under that id, never a subset') is C03_join_complete_multi; provenance across filters is C01Net
+RULE = ('(1) adversarial wire feeds of a real ZMQReceiver: 1-3 sources x {sync, ?, ??} x {all topics, explicit+remap, *} x {well-formed increasing ids with '
         'skips, arbitrary ids with duplicates/stale/restarts/loss/specials}; random interleaving (FIFO per source) and a recv(timeout=0) call after '
-        'random prefixes, so every call boundary is a time-out; random poll order; state = None or the MQ discipline.  non-trivial = at least one set returned')
+        'random prefixes, so every call boundary is a time-out; random poll order; state = None or the MQ discipline.  '
+        '(2) closed network (OFProps/C01Net.lean): 2-7 REAL MQ objects (real ZMQSender/ZMQReceiver each) wired through fakezmq for chain / tee / tee-rejoin (2-3 branches, '
+        'also of unequal length) / independent join / nested diamond / random DAG topologies, process functions pass / rename / add / remove / lone Frame / sum-of-inputs / {} / None on chosen frames / '
+        'callable / callable returning None on every node incl. the branches that are rejoined, run on explicit schedules of recv i | send i @t | restart i (graceful or crash) - fair sweeps, loose sweeps and '
+        'chaotic orders, clock gaps beyond the connection time-out - and compared event by event with the Lean model OF.Net (requests pushed, sets returned, what process() is handed, every wire message published, '
+        'return value of send, and per node: next id, client table, prev_id, buffers, queue lengths, MQ.send_state / recv_state); oracle on origin tags carried in the frames themselves.  '
+        '(3) MQNet pipeline runs with delays and loss.  non-trivial = at least one set returned / handed to a node with a receiver')
 ASSUMPTIONS = ['per-source completeness (C03_join_complete_multi) is proved for loss-free FIFO block streams into a non-balanced receiver with synchronised sources; under loss / adversarial input the single-id invariant (C01_inv_reachable) and buffer-level completeness (C05_sets_complete) are what is proved, completeness against what was published is then checked by the oracle',
-               'a `state` above the receiver\'s own expected id is passed only while no partial set is buffered (what MQ.recv/MQ.send do); stated as Adm in the theorem',
-               'topic names are non-empty', 'libzmq is replaced by an in-process fake: FIFO per connection, PUB/SUB prefix filtering (harness/ofverif/fakezmq.py)']
-TRUSTED = ['poll-granular transcription of ZMQReceiver (lean/OFModel/Zmq/Receiver.lean); compared call-by-call (requests, returned sets, ids, balanced flag) with the real class']
+               'a `state` above the receiver\'s own expected id is passed only while no partial set is buffered (what MQ.recv/MQ.send do); stated as Adm in the receiver theorem - inside the network model this is PROVED of the MQ hand-over (NodeInv.rstate), not assumed',
+               'topic names are non-empty (network level: hypothesis ProcOK - handed no empty topic name, a process function returns none; that handed names are non-empty is proved: a heartbeat is never stored as a frame, step_ne)', 'libzmq is replaced by an in-process fake: FIFO per connection, PUB/SUB prefix filtering (harness/ofverif/fakezmq.py)',
+               'network level (C01_net_provenance): every topology (acyclicity not needed), every process-function family, every schedule incl. restarts, no bound; the model delivers immediately, loss-free and FIFO per connection; '
+               'all subscriptions synchronised all-topics, no balancing / ephemeral listeners / outs_required / _metrics / _filter topics; a source frame is identified by (source node, incarnation, id it was published under), and one incarnation publishes an id at most once (C01_net_ids_increasing)',
+               'network level: "descends from one and the same original frame" = origin SUBSET {(s0, 0, k)} for every schedule that never restarts the source (C01_net_provenance_single_exact; other nodes may restart), = {(s0, 0, k)} if moreover no filter makes frames out of an empty set (C01_net_provenance_single_eq); '
+               'with a restart of the source AND of a branch it is false on the real code: known finding net-mixed-incarnation (corpus/C01, pending_fixes/C01-net-mixed-incarnation.finding.md)']
+TRUSTED = ['poll-granular transcription of ZMQReceiver (lean/OFModel/Zmq/Receiver.lean); compared call-by-call (requests, returned sets, ids, balanced flag) with the real class',
+           'network model lean/OFModel/Zmq/Net.lean (endpoint automata + MQ hand-over + loop_once state); compared event by event with real MQ objects on fakezmq (harness/ofverif/netfeed.py)']
+
+
+def net_campaign(ctx, n):
+    """closed network: real MQ objects on fakezmq vs OF.Net, event by event; origin-tag oracle"""
+    logging.disable(logging.CRITICAL)
+    res, rng = ctx.result, ctx.rng
+    trials = [c['trial'] for c in ctx.corpus if c.get('feed') == 'net']
+    if ctx.replay and ctx.replay.get('case', {}).get('feed') == 'net':
+        trials = [ctx.replay['case']['trial']]; n = 0
+    for _ in range(n): trials.append(netfeed.gen_trial(rng))
+    impl = [netfeed.run_impl(t) for t in trials]
+    model = ctx.driver.batch([netfeed.model_request(t) for t in trials]) if ctx.driver else None
+    stats = {}
+    for idx, (t, (obs, handed, pubmid)) in enumerate(zip(trials, impl)):
+        sets = [h for h in handed if h[2] is not None]
+        joins = sum(1 for h in sets if len(t['topo']['ups'][h[1]]) > 1)
+        fam = t['topo'].get('family', '?')
+        stats[fam] = stats.get(fam, 0) + 1
+        stats['sets'] = stats.get('sets', 0) + len(sets); stats['sets_at_joins'] = stats.get('sets_at_joins', 0) + joins
+        stats['restarts'] = stats.get('restarts', 0) + sum(1 for e in t['evs'] if e['k'] == 'restart')
+        res.note({'feed': 'net', 'family': fam, 'ups': t['topo']['ups'], 'behs': t['topo']['behs'], 'events': len(t['evs']), 'sets_handed': len(sets), 'at_joins': joins},
+                 nontrivial=False)
+        if sets: res.nontrivial.add(f'net:{ctx.seed}:{idx}:{len(t["evs"])}:{len(sets)}')
+        vs = netfeed.oracles(t, handed, pubmid)
+        if any(v[0] == 'net-mixed-incarnation' for v in vs): stats['mixed_incarnation'] = stats.get('mixed_incarnation', 0) + 1
+        seen = set()
+        for key, what in vs:        # 'net-mixed-incarnation' (same id, two incarnations of one source: known finding) never masks a 'net-mixed-origin'
+            if key in seen: continue
+            seen.add(key)
+            res.violations.append(Violation(key, what, {'feed': 'net', 'trial': t}))
+        if model is None: continue
+        r = model[idx]
+        if 'err' in r:
+            res.disagreements.append({'point': 'net.run', 'case': {'feed': 'net', 'trial': t}, 'impl': None, 'model': r}); continue
+        m, origins = netfeed.canon_model(r, t)
+        o = netfeed.canon_impl(obs)
+        m = m[:len(o)]
+        if m != o:
+            ci = next((i for i, (a, b) in enumerate(zip(o, m)) if a != b), min(len(o), len(m)))
+            a, b = (o[ci] if ci < len(o) else None), (m[ci] if ci < len(m) else None)
+            if a and b and a[0] == b[0]:
+                ni = next((i for i, (x, y) in enumerate(zip(a[1], b[1])) if x != y), None)
+                a, b = {'node': ni, 'snap': a[1][ni] if ni is not None else None}, {'node': ni, 'snap': b[1][ni] if ni is not None else None}
+            res.disagreements.append({'point': f'MQ network event #{ci} {t["evs"][ci] if ci < len(t["evs"]) else None} vs OF.Net.step', 'case': {'feed': 'net', 'trial': t}, 'impl': a, 'model': b})
+            continue
+        om = netfeed.origin_mismatch(handed, pubmid, [x for x in origins if x[0] < len(o)])
+        if om:
+            res.disagreements.append({'point': 'origin tags vs ghost origins of OF.Net', 'case': {'feed': 'net', 'trial': t}, 'impl': om, 'model': None})
+        else:
+            res.traces_validated += 1
+    res.extra['net_stats'] = stats
 
 
 def run(ctx):
     n = 12000 if ctx.thorough else (4000 if ctx.escalate else 1200)
     protocol.recv_campaign(ctx, 'C01', n, ['wf', 'wf', 'adv', 'adv', 'bal'])
+    net_campaign(ctx, 6000 if ctx.thorough else (1500 if ctx.escalate else 500))
     if not ctx.replay: pipeline.campaign_sets(ctx, 'C01', 400 if ctx.thorough else 40)
